@@ -853,7 +853,8 @@ fn cmd_replay(path: &str) -> i32 {
 
 fn cmd_stats(id: &str, cases: u64) -> i32 {
     for stage in stages(id) {
-        if !runs_here(stage.profile) && !(stage.profile == Profile::Isolated && !cfg!(debug_assertions)) {
+        // the constructed child-process stages cost seconds per case: only in small stats runs
+        if !runs_here(stage.profile) && !(stage.profile == Profile::Isolated && !cfg!(debug_assertions) && cases <= 200) {
             continue;
         }
         let opts = RunOpts {
